@@ -637,7 +637,9 @@ func NR(p *core.Program) *NoReturn {
 // Of builds (once) the graph of a declared function.
 func Of(p *core.Program, fn *core.Fn) *Graph {
 	key := fmt.Sprintf("cfgq.g.%p", fn.Decl)
-	if v, ok := p.Shared[key]; ok {
+	// the cache is keyed by address: an entry is valid only for the very body it was built from (a
+	// declaration copied by a rule and since collected may have had the same address)
+	if v, ok := p.Shared[key]; ok && v.(*Graph).Body == fn.Decl.Body {
 		return v.(*Graph)
 	}
 	g := New(p.Fset, fn.Pkg.TypesInfo, fn.Decl.Body, NR(p))
@@ -649,7 +651,7 @@ func Of(p *core.Program, fn *core.Fn) *Graph {
 // OfLit builds the graph of a function literal.
 func OfLit(p *core.Program, info *types.Info, lit *ast.FuncLit) *Graph {
 	key := fmt.Sprintf("cfgq.g.%p", lit)
-	if v, ok := p.Shared[key]; ok {
+	if v, ok := p.Shared[key]; ok && v.(*Graph).Body == lit.Body {
 		return v.(*Graph)
 	}
 	g := New(p.Fset, info, lit.Body, NR(p))
